@@ -101,6 +101,34 @@ def parse_value(s):
     return v
 
 
+def read_dump_lines(lines, only=None):
+    """read_dump over the lines of ONE state block (State header + conjuncts) held in memory"""
+    import io, tempfile
+    cur, name, buf = None, None, []
+
+    def flush():
+        nonlocal name, buf
+        if name is not None and (only is None or name in only):
+            cur[name] = parse_value(" ".join(buf))
+        name, buf = None, []
+
+    for line in lines:
+        line = line.rstrip("\n")
+        if line.startswith("State "):
+            cur = {}
+            continue
+        if cur is None:
+            continue
+        m = re.match(r"(?:/\\ )?(\w+) = (.*)$", line)
+        if m:
+            flush()
+            name, buf = m.group(1), [m.group(2)]
+        elif line.strip():
+            buf.append(line.strip())
+    if cur is not None:
+        flush(); yield cur
+
+
 def read_dump(path, only=None):
     """yield one dict {var: value} per state of a `tlc -dump` file"""
     cur, name, buf = None, None, []
